@@ -395,6 +395,22 @@ func (vc *VC) noteWrite(st *State, kind PtrKind, key string, base, idx *Term) {
 	vc.writes = append(vc.writes, writeRec{pc: st.pc, kind: kind, key: key, base: base, idx: idx, nAs: len(vc.assumes)})
 }
 
+func (vc *VC) loadFactsB(st *State, v *Term, t types.Type, bound *Term) {
+	if len(freeBound(v)) > 0 {
+		return
+	}
+	if v.Sort.Kind == SInt {
+		switch under(t).(type) {
+		case *types.Pointer, *types.Map, *types.Chan:
+			vc.assume(st, And(Ge(v, IntC(0)), Lt(v, bound)))
+			return
+		}
+	}
+	for _, f := range rangeFacts(v, t) {
+		vc.assume(st, f)
+	}
+}
+
 func (vc *VC) loadFacts(st *State, v *Term, t types.Type) {
 	if len(freeBound(v)) > 0 {
 		// range facts of values read under a quantifier are not needed
@@ -578,6 +594,11 @@ func (vc *VC) mergeStates(ins []*State) *State {
 		}
 		if s.taint != "" && out.taint == "" {
 			out.taint = s.taint
+		}
+		for k, b := range out.kbase {
+			if sb, ok := s.kbase[k]; !ok || sb != b {
+				delete(out.kbase, k)
+			}
 		}
 		// held locks
 		if s.held != nil || out.held != nil {
@@ -1056,6 +1077,7 @@ func (vc *VC) execLoop(fx *FuncCtx, L *Loop, st *State, fr *Frame, ins []*State)
 			vc.assume(h, Forall([]*Term{r}, Implies(Lt(r, Add(oldBase, IntC(int64(oldN)))), Eq(Select(nh, r), Select(st.heapVar(ki), r)))))
 		}
 		h.heap[k] = nh
+		h.touchKey(k)
 	}
 	hphi := map[*ssa.Phi]Val{}
 	for phi := range ephi {
